@@ -81,6 +81,7 @@ func (P *Program) configFor(h *HarnessSpec, tier string) Config {
 func (P *Program) Explore(h *HarnessSpec, opts RunOpts) *HarnessResult {
 	start := time.Now()
 	P.Cfg = P.configFor(h, opts.Tier)
+	replErr := P.SetReplacements(h.Replace)
 	res := &HarnessResult{Name: h.Name, Doc: h.Doc, AssertSites: map[string]int{}, Covers: map[string]int{},
 		Bounds: h.Bounds[opts.Tier], MaxPreempt: P.Cfg.MaxPreempt}
 	solverKind := opts.Solver
@@ -93,6 +94,11 @@ func (P *Program) Explore(h *HarnessSpec, opts RunOpts) *HarnessResult {
 		maxPaths = h.MaxPaths
 	}
 
+	if replErr != nil {
+		res.Verdict = "inconclusive"
+		res.Inconclusive = []string{"setup: " + replErr.Error()}
+		return res
+	}
 	var mu sync.Mutex
 	cond := sync.NewCond(&mu)
 	work := [][]Dec{{}}
